@@ -25,7 +25,7 @@ func HarnessC13LocalFSConfinement() {
 	}
 	n := verifrt.Choose(maxN + 1)
 	p := verifrt.String(n)
-	op := verifrt.Choose(14)
+	op := verifrt.Choose(18)
 	// also: absolute host paths that begin with the base's own path and then
 	// leave it ("<base>/../s", "<base>2/x")
 	baseRelative := false
@@ -48,6 +48,11 @@ func HarnessC13LocalFSConfinement() {
 		os.Mkdir(filepath.Join(base, "d"), 0o755)
 		os.WriteFile(filepath.Join(base, "f"), []byte("inside"), 0o644)
 		os.WriteFile(filepath.Join(parent, "s"), []byte("secret"), 0o644)
+		// the host's temporary directory is a place outside the base too
+		os.Mkdir(filepath.Join(parent, "hosttmp"), 0o755)
+		oldTmp := os.Getenv("TMPDIR")
+		os.Setenv("TMPDIR", filepath.Join(parent, "hosttmp"))
+		defer os.Setenv("TMPDIR", oldTmp)
 	}
 	fs, err := New(context.Background(), WithBase(base))
 	verifrt.Assert(err == nil, "filesystem-created")
@@ -103,6 +108,22 @@ func HarnessC13LocalFSConfinement() {
 		fs.Symlink(p, "l")
 	case 12:
 		fs.Symlink("f", p)
+	case 14:
+		fs.WriteFile(p, []byte("w"), 0o644)
+	case 15:
+		fs.WalkDir(p, func(path string, d os.DirEntry, err error) error {
+			if native && d != nil && d.Name() == "s" {
+				leaked = true
+			}
+			return nil
+		})
+	case 16:
+		fs.MkdirTemp(p, "vpat")
+	case 17:
+		// no directory given: the temporary directory still belongs inside the base
+		if n == 0 {
+			fs.MkdirTemp("", "vpat")
+		}
 	case 13:
 		if es, err := fs.ReadDir(p); err == nil && native {
 			for _, e := range es {
@@ -115,6 +136,9 @@ func HarnessC13LocalFSConfinement() {
 	verifrt.Reach("operated")
 	if !native {
 		for _, hp := range verifrt.TrappedStrings() {
+			if hp == "vpat" {
+				continue // the name pattern of MkdirTemp is not a path
+			}
 			inside := hp == base || strings.HasPrefix(hp, base+"/")
 			verifrt.Assert(inside, "host-path-inside-base")
 		}
@@ -136,9 +160,12 @@ func HarnessC13LocalFSConfinement() {
 	// operation (RemoveAll("") is inside the base); nothing else may appear and
 	// the sentinel must still be there
 	for _, nm := range names {
-		if nm != "base" && nm != "s" {
+		if nm != "base" && nm != "s" && nm != "hosttmp" {
 			unchanged = false
 		}
+	}
+	if es, err := os.ReadDir(filepath.Join(parent, "hosttmp")); err != nil || len(es) != 0 {
+		unchanged = false // something was created in the host's temporary directory
 	}
 	hasS := false
 	for _, nm := range names {
